@@ -351,3 +351,50 @@ func verifC15_three() {
 	c.CloseNow()
 	vObserve("c15three", len(ps))
 }
+
+// C15.busy-writer: two Pings arrive while a local writer is stuck in the transport in the middle of a frame (it holds the
+// frame lock); then the writer goes on. Each Ping is answered by a Pong with its own payload, in the order received.
+func verifC15_busy_writer() {
+	client := vParam("client", 1) == 1
+	vInstallRand()
+	mk := func(f vFrame) vFrame {
+		f.masked = !client
+		if f.masked {
+			copy(f.key[:], vBytes("key", 4))
+		}
+		return f
+	}
+	p1, p2 := vBytes("p1", 1+vChoose("n1", 2)), vBytes("p2", 1+vChoose("n2", 2))
+	t := vNewTransport(nil)
+	t.endMode = vEndBlock
+	t.holdAt = 1
+	c := vNewConn(t, client, nil, 32, 64)
+	wdone := make(chan error, 1)
+	go func() { wdone <- c.Write(vBG, MessageBinary, vBytes("w", 2)) }()
+	vGhostSettle() // the writer is inside its frame, holding the frame lock
+	c.CloseRead(vBG)
+	t.vFeed(vEncodeFrame(mk(vFrame{fin: true, opcode: 9, payload: p1})))
+	vGhostSettle()
+	t.vFeed(vEncodeFrame(mk(vFrame{fin: true, opcode: 9, payload: p2})))
+	vGhostSettle()
+	close(t.release)
+	vAssert(<-wdone == nil, "C15.busy.writer-ok")
+	vGhostSettle()
+	time.Sleep(time.Second)
+	vReach("C15.busy.released")
+	frs, ok := vParseWritten(t.out)
+	vAssert(ok, "C15.busy.wellformed")
+	var pongs [][]byte
+	for _, f := range frs {
+		if f.opcode == 10 {
+			pongs = append(pongs, f.payload)
+		}
+	}
+	good := len(pongs) == 2
+	if good {
+		good = vAnd(vEqBytes(pongs[0], p1), vEqBytes(pongs[1], p2))
+	}
+	vAssert(good, "C15.echo.pongs-carry-their-pings-payload-in-order")
+	c.CloseNow()
+	vObserve("c15busy", len(pongs))
+}
